@@ -51,7 +51,15 @@ EXPLANATION = (
     "writable tracker list is also reported to the peer selector (or found not to be in its writable set), so the "
     "next placement differs; (13) trackers of read-only servers are asked for existing shares, the answer handler "
     "records each share with add_peer_with_share(<tracker id>, share) on the non-failure path, the Deferred is "
-    "collected and the collection awaited before the first placement. "
+    "collected and the collection awaited before the first placement; (14) the selector keeps what it is told: the "
+    "relation given to share_placement as peers_to_shares is created as a new empty mapping in PeerSelector.__init__, "
+    "add_peer_with_share(p, s) reaches its end only with s in that relation's set for p (CFG monitor over the recording "
+    "steps M[p].add(s), M.setdefault(p, <new set>).add(s), M[p] = <set holding s> / M.setdefault(p, <set holding s>) "
+    "where p is known to have no entry, M[p] = M[p] | {s}, ...) and never replaces the set recorded for p where p may "
+    "have an entry, add_peer(p) ends only with p in the writable set, mark_bad_peer(p) ends with p in neither server set; "
+    "(1b) R9 through the container: an object created outside a loop and put under several keys of a container whose "
+    "held objects are changed in place (C[k].add(..), C.setdefault(k, d).add(..)), and dict.fromkeys(keys, <mutable>) "
+    "with in-place changes, are reported like (1). "
     "Undecided: that the flow found is maximum once (6)-(8) hold (termination/optimality of Edmonds-Karp), "
     "PriorityQueue tie-breaking, set iteration order; evenness of the homeless distribution (priority values and "
     "increments) and the lease-renewal preference; the pruning of the phase-2 servermap in share_placement (it only "
@@ -63,7 +71,8 @@ TECHNIQUE = ("static analysis: CFG cycle/reaching-definition alias rule (R9), no
              "edge-fact dominance and set-difference-chain normal forms over share_placement, CFG x staleness "
              "monitor and update-pair normal form for the placement's Edmonds-Karp copy, key-provenance chains and "
              "must-follow (get/put) over the homeless distribution, must-precede with yield as kill for the "
-             "selector's use of the placement")
+             "selector's use of the placement, CFG x (recorded, key-known-absent) monitor for the selector's "
+             "multimap insertion")
 
 HU = "immutable.happiness_upload"
 UP = "immutable.upload"
@@ -187,6 +196,138 @@ def escaping_stores(n):
                 for nm in _display_names(a.value):
                     if not (isinstance(t.value, ast.Name) and t.value.id == nm):
                         out.append((nm, "%s[..] = .." % src(None, t.value)))
+    return out
+
+
+def escaping_stores2(n):
+    """[(name, how, container path or None)]: escaping_stores plus the attribute path of the receiving container."""
+    out = []
+    a = n.ast
+    if a is None:
+        return out
+    for e in node_exprs(n):
+        for x in own_nodes(e):
+            if isinstance(x, ast.Call) and isinstance(x.func, ast.Attribute) and x.func.attr in _INSERTERS:
+                recv = x.func.value
+                rname = recv.id if isinstance(recv, ast.Name) else None
+                vals = list(x.args) + [k.value for k in x.keywords]
+                if x.func.attr in ("extend", "update"):
+                    vals = [v for v in vals if isinstance(v, (ast.List, ast.Tuple, ast.Set, ast.Dict))]
+                for v in vals:
+                    for nm in _display_names(v):
+                        if nm != rname:
+                            out.append((nm, "%s.%s(..)" % (src(None, recv), x.func.attr), attr_path(recv)))
+    if n.kind == "stmt" and isinstance(a, ast.Assign):
+        for t in a.targets:
+            if isinstance(t, ast.Subscript):
+                for nm in _display_names(a.value):
+                    if not (isinstance(t.value, ast.Name) and t.value.id == nm):
+                        out.append((nm, "%s[..] = .." % src(None, t.value), attr_path(t.value)))
+    return out
+
+
+def held_by(cfg, rd, n, e, cpath, depth=2) -> bool:
+    """Expression e (evaluated at node n) is an object held by the container `cpath`: C[k], C.get(k), C.setdefault(k, d),
+    a local bound to one of these, the value variable of `for v in C.values()` / `for k, v in C.items()`."""
+    if isinstance(e, ast.Subscript):
+        return attr_path(e.value) == cpath
+    if isinstance(e, ast.Call) and isinstance(e.func, ast.Attribute) and e.func.attr in ("setdefault", "get"):
+        return attr_path(e.func.value) == cpath
+    if isinstance(e, ast.Name) and depth > 0:
+        for d in rd.get(n.id, {}).get(e.id, ()):
+            if d < 0:
+                continue
+            dn = cfg.nodes[d]
+            if dn.kind == "iter":
+                base, view = unwrap_view(dn.ast.iter)
+                t = dn.ast.target
+                if attr_path(base) == cpath and (
+                        (view == "values" and isinstance(t, ast.Name)) or
+                        (view == "items" and isinstance(t, (ast.Tuple, ast.List)) and len(t.elts) == 2
+                         and isinstance(t.elts[1], ast.Name) and t.elts[1].id == e.id)):
+                    return True
+                continue
+            v = def_value(dn, e.id)
+            if v is not None and held_by(cfg, rd, dn, v, cpath, depth - 1):
+                return True
+    return False
+
+
+def element_mutations(cfg, rd, cpath):
+    """CFG nodes that change, in place, an object held by the container `cpath` (C[k].add(..), C.setdefault(k, d).append(..),
+    C[k] |= .., C[k][i] = .., v.add(..) for a local v bound to an element)."""
+    out = []
+    for n in cfg.nodes:
+        a = n.ast
+        if a is None:
+            continue
+        hit = False
+        for e in node_exprs(n):
+            for x in own_nodes(e):
+                if isinstance(x, ast.Call) and isinstance(x.func, ast.Attribute) and x.func.attr in _MUTATORS \
+                        and held_by(cfg, rd, n, x.func.value, cpath):
+                    hit = True
+        if n.kind == "stmt":
+            tg = a.targets if isinstance(a, (ast.Assign, ast.Delete)) else ([a.target] if isinstance(a, ast.AugAssign) else [])
+            for t in tg:
+                if isinstance(t, ast.Subscript) and held_by(cfg, rd, n, t.value, cpath):
+                    hit = True
+                if isinstance(a, ast.AugAssign) and held_by(cfg, rd, n, t, cpath) \
+                        and not isinstance(a.value, ast.Constant):
+                    hit = True
+        if hit:
+            out.append(n)
+    return out
+
+
+def shared_slots(fn, r, n, name, how, cpath, creators):
+    """R9 through the container: the object `name` is put into the container `cpath` at n in one iteration and again in
+    the next (a cycle through n that never re-binds the name), and an object held by that container is changed in
+    place at a node n can reach - the change shows under every key that got the object.  True when the rule holds."""
+    if cpath is None:
+        return True
+    cfg = fn.cfg()
+    on, path = shared_cycle(cfg, n, name)
+    r.count(len(on) + 1)
+    if not on:
+        return True
+    rd = C.reaching_defs(cfg)
+    muts = [m for m in element_mutations(cfg, rd, cpath) if m is n or reach_from(cfg, n, m)]
+    if not muts:
+        return True
+    w = ["L%d %r" % (cfg.nodes[i].lineno, cfg.nodes[i]) for i in path]
+    r.violation(fn, fn.loc(n.ast),
+                "shared slot object: `%s` (created at line %s) is put into %s by %s again and again while no way round "
+                "the loop re-binds it, and the objects held by %s are changed in place at line %s - every key that got "
+                "the object sees the additions made for the others" % (
+                    name, ",".join(str(c.lineno) for c in creators) or "?", cpath, how, cpath,
+                    ",".join(str(m.lineno) for m in muts)), w)
+    return False
+
+
+def fromkeys_shared(fn):
+    """[(node, container name, value expr)] for `C = dict.fromkeys(keys, V)` with V a mutable object (one object under
+    every key) when objects held by C are changed in place afterwards."""
+    out = []
+    if not any(isinstance(x, ast.Call) and call_tail(x) == "fromkeys" for x in func_own_nodes(fn)):
+        return out
+    cfg = fn.cfg()
+    rd = C.reaching_defs(cfg)
+    for n in cfg.stmt_nodes():
+        a = n.ast
+        if n.kind != "stmt" or not isinstance(a, ast.Assign) or len(a.targets) != 1 or not isinstance(a.value, ast.Call):
+            continue
+        c = a.value
+        if call_tail(c) != "fromkeys" or len(c.args) != 2 or attr_path(a.targets[0]) is None:
+            continue
+        v = c.args[1]
+        mutable = fresh_mutable(v) or (isinstance(v, ast.Name) and bool(creators_of(cfg, rd, n, v.id)))
+        if not mutable:
+            continue
+        cpath = attr_path(a.targets[0])
+        muts = [m for m in element_mutations(cfg, rd, cpath) if reach_from(cfg, n, m)]
+        if muts:
+            out.append((n, cpath, v, muts))
     return out
 
 
@@ -1207,6 +1348,284 @@ def has_yield(n) -> bool:
     return any(isinstance(x, (ast.Yield, ast.YieldFrom, ast.Await)) for e in node_exprs(n) for x in own_nodes(e))
 
 
+# ===================================== recording into a relation (rule 14; C08.5 uses it for shares_by_server)
+_SET_ADDERS = ("add",)
+_SET_MERGERS = ("update", "union_update")
+_KEYERRORS = ("KeyError", "LookupError", "Exception", "BaseException")
+
+
+def handler_catches(h, names=_KEYERRORS) -> bool:
+    """The `except` clause catches KeyError (by that name, a base class of it, or as a bare `except:`)."""
+    t = getattr(h, "type", None)
+    if t is None:
+        return True
+    for x in (t.elts if isinstance(t, ast.Tuple) else [t]):
+        if (attr_path(x) or "").split(".")[-1] in names:
+            return True
+    return False
+
+
+class PairRecord:
+    """Decides, over all paths, that a piece of code records the pair (K, V) in the relation M (a mapping key -> set of
+    values) without losing what M[K] held before.
+
+    The monitor runs over the CFG (of the whole function, or of one iteration of the loop at `head`) with the state
+    (recorded, what is known about `K in M`, a local set that already got V).  Recording steps:
+      M[K].add(V) / M.setdefault(K, <new set>).add(V) / M.get(K).add(V) / M[K] |= {V} / M[K].update([V]) / M.add(K, V)
+      (each also through a local bound to the receiver) - when the statement completes normally;
+      M[K] = M[K] | {V} (old value kept) - always;
+      M[K] = <new set holding V> / M.setdefault(K, <new set holding V>) - only where K is known to be absent (KeyError
+      handler of a read of M[K], `K not in M`, `M.get(K) is None`); elsewhere the former keeps V but *overwrites* the
+      earlier values (reported) and the latter does nothing for a key that is present;
+      L = M.get(K, <new set>); L.add(V); M[K] = L.
+    Results: .unrecorded [(witness)] ways to the end on which the pair was not recorded, .clobbers [(node, witness)],
+    .foreign [(node, text)] insertions into M of something other than (K, V), .ops recording statements seen."""
+
+    def __init__(self, fn, M, K, V, head=None):
+        self.fn, self.M, self.K, self.V, self.head = fn, M, K, V, head
+        self.cfg = fn.cfg()
+        self.fl = Flow(fn)
+        self.ops = {}
+        self.foreign = {}
+        self._clob = {}
+        self.unrecorded = []
+        self.clobbers = []
+        self._run()
+
+    # ---- expression classification
+    def res(self, n, e, depth=4):
+        """Follow plain-name copies to the defining expression: (node, expr)."""
+        while depth > 0 and isinstance(e, ast.Name):
+            dn, v = self.fl.unique_def(n, e.id)
+            if v is None:
+                break
+            n, e, depth = dn, v, depth - 1
+        return n, e
+
+    def is_m(self, n, e, depth=4) -> bool:
+        """e is the relation M (or a local that was bound to it)."""
+        while depth > 0 and isinstance(e, ast.Name) and e.id != self.M:
+            dn, v = self.fl.unique_def(n, e.id)
+            if v is None or attr_path(v) is None:
+                break
+            n, e, depth = dn, v, depth - 1
+        return attr_path(e) == self.M
+
+    def is_k(self, n, e) -> bool:
+        return e is not None and self.fl.origin(n, e) == self.K
+
+    def is_v(self, n, e) -> bool:
+        return e is not None and self.fl.origin(n, e) == self.V
+
+    def slot(self, n, e):
+        """e refers to the value M holds under some key: (kind, node, key expr, default expr) with kind in
+        sub | setdefault | get1 | get2 (get2 also stands for `M.get(k) or <default>`)."""
+        n2, e2 = self.res(n, e)
+        if isinstance(e2, ast.Subscript) and self.is_m(n2, e2.value):
+            return ("sub", n2, e2.slice, None)
+        if isinstance(e2, ast.Call) and isinstance(e2.func, ast.Attribute) and self.is_m(n2, e2.func.value) \
+                and not e2.keywords:
+            a = e2.func.attr
+            if a == "setdefault" and len(e2.args) == 2:
+                return ("setdefault", n2, e2.args[0], e2.args[1])
+            if a == "get" and len(e2.args) == 1:
+                return ("get1", n2, e2.args[0], None)
+            if a == "get" and len(e2.args) == 2:
+                return ("get2", n2, e2.args[0], e2.args[1])
+        if isinstance(e2, ast.BoolOp) and isinstance(e2.op, ast.Or) and len(e2.values) == 2:
+            s = self.slot(n2, e2.values[0])
+            if s and s[0] in ("get1", "get2"):
+                return ("get2", s[1], s[2], e2.values[1])
+        return None
+
+    def new_set(self, n, e):
+        """(e creates a set object, that set holds V) - names followed to their definition."""
+        n2, e2 = self.res(n, e)
+        if isinstance(e2, ast.Set):
+            return True, any(self.is_v(n2, x) for x in e2.elts)
+        if isinstance(e2, ast.SetComp):
+            return True, False
+        if isinstance(e2, ast.Call) and isinstance(e2.func, ast.Name) and e2.func.id == "set" and not e2.keywords:
+            if not e2.args:
+                return True, False
+            a = e2.args[0]
+            if len(e2.args) == 1 and isinstance(a, (ast.List, ast.Tuple, ast.Set)):
+                return True, any(self.is_v(n2, x) for x in a.elts)
+            return True, False
+        return False, False
+
+    def holds_v(self, n, e) -> bool:
+        """A collection display / new set that holds V ({V}, [V], (V,), set([V]))."""
+        n2, e2 = self.res(n, e)
+        if isinstance(e2, (ast.List, ast.Tuple, ast.Set)):
+            return any(self.is_v(n2, x) for x in e2.elts)
+        return self.new_set(n2, e2)[1]
+
+    def union_parts(self, e):
+        if isinstance(e, ast.BinOp) and isinstance(e.op, ast.BitOr):
+            return self.union_parts(e.left) + self.union_parts(e.right)
+        if isinstance(e, ast.Call) and isinstance(e.func, ast.Attribute) and e.func.attr == "union" and not e.keywords:
+            out = self.union_parts(e.func.value)
+            for a in e.args:
+                out += self.union_parts(a)
+            return out
+        return [e]
+
+    # ---- the monitor
+    def _knowledge(self, n, lab, know):
+        """What the edge (n, lab) tells about `K in M`."""
+        if n.kind != "test" or not isinstance(lab, tuple):
+            return know
+        pos = lab[0] == "T"
+        c = n.ast
+        if isinstance(c, ast.Compare) and len(c.ops) == 1:
+            op, l, r = c.ops[0], c.left, c.comparators[0]
+            if isinstance(op, (ast.In, ast.NotIn)) and self.is_k(n, l):
+                base, view = unwrap_view(r)
+                if view in (None, "keys") and self.is_m(n, base):
+                    return "present" if isinstance(op, ast.In) == pos else "absent"
+            if isinstance(op, (ast.Is, ast.IsNot, ast.Eq, ast.NotEq)):
+                for (x, y) in ((l, r), (r, l)):
+                    if isinstance(y, ast.Constant) and y.value is None:
+                        s = self.slot(n, x)
+                        if s and s[0] == "get1" and self.is_k(s[1], s[2]):
+                            return "absent" if isinstance(op, (ast.Is, ast.Eq)) == pos else "present"
+            return know
+        s = self.slot(n, c)
+        if s and s[0] == "get1" and self.is_k(s[1], s[2]):
+            return "present" if pos else "absent"      # an entry that is an empty set may be replaced as well
+        return know
+
+    def _note_foreign(self, n, what):
+        self.foreign.setdefault(n.id, (n, what))
+
+    def _effects(self, n, st):
+        rec, know, pend = st
+        a = n.ast
+        here = (n.id, st)
+        calls = [x for e in node_exprs(n) for x in own_nodes(e) if isinstance(x, ast.Call)
+                 and isinstance(x.func, ast.Attribute)]
+        for c in calls:
+            meth, recv = c.func.attr, c.func.value
+            if c.keywords:
+                continue
+            if meth in _SET_ADDERS + _SET_MERGERS and len(c.args) == 1:
+                s = self.slot(n, recv)
+                val_ok = self.is_v(n, c.args[0]) if meth in _SET_ADDERS else self.holds_v(n, c.args[0])
+                if s is not None:
+                    kind, kn, key, dflt = s
+                    if not (self.is_k(kn, key) and val_ok):
+                        self._note_foreign(n, "%s records (%s, %s)" % (src(self.fn, c), src(self.fn, key), src(self.fn, c.args[0])))
+                        continue
+                    if kind in ("sub", "get1") or (kind == "setdefault" and self.new_set(kn, dflt)[0]):
+                        rec, know = True, "present"
+                        self.ops[id(c)] = c
+                    elif kind == "get2" and isinstance(recv, ast.Name):
+                        pend = recv.id             # old-or-new set: counts once it is stored back
+                elif isinstance(recv, ast.Name) and val_ok and self.new_set(n, recv)[0]:
+                    pend = recv.id
+            elif meth == "add" and len(c.args) == 2 and self.is_m(n, recv):
+                if self.is_k(n, c.args[0]) and self.is_v(n, c.args[1]):
+                    rec, know = True, "present"
+                    self.ops[id(c)] = c
+                else:
+                    self._note_foreign(n, "%s records (%s, %s)" % (src(self.fn, c), src(self.fn, c.args[0]), src(self.fn, c.args[1])))
+            elif meth == "setdefault" and len(c.args) == 2 and self.is_m(n, recv):
+                if not self.is_k(n, c.args[0]):
+                    if self.new_set(n, c.args[1])[0]:
+                        self._note_foreign(n, "%s makes an entry for %s" % (src(self.fn, c), src(self.fn, c.args[0])))
+                    continue
+                if self.new_set(n, c.args[1])[1]:
+                    self.ops[id(c)] = c
+                    if know == "absent":
+                        rec = True
+                know = "present"
+        targets = []
+        if n.kind == "stmt" and isinstance(a, ast.Assign):
+            targets = [(t, a.value, None) for t in a.targets]
+        elif n.kind == "stmt" and isinstance(a, ast.AugAssign):
+            targets = [(a.target, a.value, a.op)]
+        for (t, val, op) in targets:
+            if not (isinstance(t, ast.Subscript) and self.is_m(n, t.value)):
+                continue
+            if not self.is_k(n, t.slice):
+                self._note_foreign(n, "%s stores under %s" % (src(self.fn, a), src(self.fn, t.slice)))
+                continue
+            if op is not None:
+                if isinstance(op, ast.BitOr) and self.holds_v(n, val):
+                    rec, know = True, "present"
+                    self.ops[id(a)] = a
+                continue
+            keeps, has_v, fresh = False, False, False
+            vn, ve = n, val
+            if isinstance(val, ast.Name) and self.slot(n, val) is None and not self.new_set(n, val)[0]:
+                vn, ve = self.res(n, val)
+            for p in self.union_parts(ve):
+                named = isinstance(p, ast.Name) and pend == p.id
+                s = self.slot(vn, p)
+                if s is not None:
+                    if self.is_k(s[1], s[2]) and (s[0] != "get2" or self.new_set(s[1], s[3])[0]):
+                        keeps = True
+                        has_v = has_v or named or (s[0] == "get2" and self.new_set(s[1], s[3])[1])
+                    continue
+                isnew, hv = self.new_set(vn, p)
+                if isnew:
+                    fresh = True
+                    has_v = has_v or hv or named
+            if keeps:
+                if has_v:
+                    rec = True
+                    self.ops[id(a)] = a
+            elif know == "absent":
+                if has_v:
+                    rec = True
+                    self.ops[id(a)] = a
+            else:
+                if has_v:
+                    self.ops[id(a)] = a
+                    rec = True          # this pair is there - the earlier ones are gone (reported)
+                self._clob.setdefault(n.id, (n, here, fresh))
+            know = "present"
+        return (rec, know, pend)
+
+    def _run(self):
+        cfg, head = self.cfg, self.head
+        START = ("start", None, None)
+
+        def transfer(n, lab, nxt, st):
+            if n.kind in ("exit", "raise"):
+                return None
+            if head is not None and n is head:
+                return (False, None, None) if (st == START and lab == "iter") else None
+            return self._step(n, lab, nxt, (False, None, None) if st == START else st)
+        visited, parent = explore(cfg, START, transfer, start=head)
+        ends = [cfg.exit] + ([head] if head is not None else [])
+        seen = set()
+        for (nid, st) in sorted(visited, key=lambda x: (x[0], str(x[1]))):
+            n = cfg.nodes[nid]
+            if any(n is e for e in ends) and st != START and not st[0] and nid not in seen:
+                seen.add(nid)
+                self.unrecorded.append(witness(cfg, parent, (nid, st)))
+        for (n, here, fresh) in self._clob.values():
+            self.clobbers.append((n, witness(cfg, parent, here) if here in parent else None, fresh))
+
+    def _step(self, n, lab, nxt, st):
+        if n.kind == "entry":
+            return st
+        if lab == "exc":
+            if nxt.kind == "raise":
+                return None
+            rec, know, pend = st
+            if nxt.kind == "except" and handler_catches(nxt.ast):
+                reads = [x for e in node_exprs(n) for x in own_nodes(e) if isinstance(x, ast.Subscript)]
+                if any(self.is_m(n, x.value) and self.is_k(n, x.slice) for x in reads):
+                    know = "absent"
+            return (rec, know, pend)
+        rec, know, pend = self._effects(n, st) if n.kind in ("stmt", "test", "iter", "with") else st
+        know = self._knowledge(n, lab, know)
+        return (rec, know, pend)
+
+
 def run(ctx: Context):
     idx = ctx.idx
     reported = set()
@@ -1250,14 +1669,20 @@ def run(ctx: Context):
                 for n in cfg2.stmt_nodes():
                     if n.id not in reach:
                         continue
-                    for (name, how) in escaping_stores(n):
+                    for (name, how, cpath) in escaping_stores2(n):
                         cr = creators_of(cfg2, rd2, n, name)
                         if not cr or not on_cycle(cfg2, n):
                             continue
                         total += 1
                         r.site(f, n.ast, "%s -> %s" % (name, how))
                         if (f.qual, id(n.ast), name) not in reported:
-                            r9_alias(f, r, n, name, how, cr)
+                            if r9_alias(f, r, n, name, how, cr):
+                                # the same object under several keys, changed through the container
+                                shared_slots(f, r, n, name, how, cpath, cr)
+                for (n, cpath, v, muts) in fromkeys_shared(f):
+                    r.violation(f, f.loc(n.ast), "shared slot object: dict.fromkeys(.., %s) puts ONE object under every key of "
+                                "%s, and the objects held by %s are changed in place at line %s" % (
+                                    src(f, v), cpath, cpath, ",".join(str(m.lineno) for m in muts)))
         ctx.note("R9: %d insertions of locally created containers inside loops examined" % total)
 
     # ------------------------------------------------------------------ 2
@@ -2684,6 +3109,116 @@ def run(ctx: Context):
                                              gate_node=lambda x: any(x is y for y in waits),
                                              kill=lambda x: any(x is a_ for a_ in appends)):
                 r.violation(gs, gs.loc(t.ast), "the placement is computed before the answers about existing shares were awaited", w)
+
+    # ----------------------------------------------------------------- 14
+    with ctx.rule("C07.14", "R2", "the selector keeps what it is told: the relation handed to share_placement as "
+                  "peers_to_shares is created empty per selector; add_peer_with_share(p, s) leaves s in that relation's "
+                  "set for p on every way to its end and never replaces the shares recorded for p before; add_peer(p) "
+                  "puts p into the writable set; mark_bad_peer(p) leaves p in neither server set", expected=5) as r:
+        gp_ = idx.func(UP + ":PeerSelector.get_share_placements")
+        cs = calls_in_func(gp_, "share_placement")
+        if len(cs) != 1:
+            raise AnchorVanished("get_share_placements: share_placement call")
+        gl = Flow(gp_)
+        gn = gl.node_of(cs[0])
+        names = []
+        for (pos, kw) in ((0, "peers"), (1, "readonly_peers"), (3, "peers_to_shares")):
+            a_ = arg(cs[0], pos, kw)
+            o_ = gl.origin(gn, a_) if a_ is not None else ""
+            if not re.match(r"^self\.\w+$", o_):
+                raise AnchorVanished("get_share_placements: share_placement argument %s is not an attribute of the selector (%s)" % (kw, o_))
+            names.append(o_)
+        PEERS, RO, REL = names
+        # (a) one empty relation per selector
+        ini = idx.func(UP + ":PeerSelector.__init__")
+        inits = [n for n in ini.cfg().stmt_nodes() if n.kind == "stmt" and isinstance(n.ast, ast.Assign)
+                 and REL in [attr_path(t) for t in n.ast.targets]]
+        r.site(ini, inits[0].ast if inits else None, "existing-share relation created")
+        if r.require(bool(inits), ini, ini.loc(), "%s is not created in PeerSelector.__init__: every upload would record its "
+                     "servers' shares in one shared relation" % REL):
+            for n in inits:
+                v = n.ast.value
+                empty = (isinstance(v, ast.Dict) and not v.keys) or (
+                    isinstance(v, ast.Call) and call_tail(v) in ("dict", "OrderedDict", "DictOfSets") and not v.args and not v.keywords) or (
+                    isinstance(v, ast.Call) and call_tail(v) == "defaultdict" and [norm_plain(a_) for a_ in v.args] == ["set"])
+                r.require(empty, ini, ini.loc(n.ast), "%s does not start as a new empty mapping (%s): the placement would see "
+                          "shares no server of this upload reported" % (REL, src(ini, v)))
+        # (b) add_peer_with_share records the pair
+        ap_ = idx.func(UP + ":PeerSelector.add_peer_with_share")
+        pp = first_positional_params(ap_)
+        if len(pp) < 2:
+            raise AnchorVanished("add_peer_with_share(peerid, shnum)")
+        K, V = pp[0], pp[1]
+        r.site(ap_, None, "add_peer_with_share")
+        pr = PairRecord(ap_, REL, K, V)
+        r.count(len(ap_.cfg().nodes))
+        for c in pr.ops.values():
+            r.site(ap_, c, "recording step")
+        only_if_new = [c for c in pr.ops.values() if isinstance(c, ast.Call) and c.func.attr == "setdefault"]
+        for w in pr.unrecorded[:1]:
+            hint = ""
+            if only_if_new:
+                hint = "; %s records %s only for a server that has no entry yet and leaves an existing entry as it is" % (
+                    src(ap_, only_if_new[0]), V)
+            r.violation(ap_, ap_.loc(), "add_peer_with_share(%s, %s) can end without %s in %s[%s]%s: a share reported by a "
+                        "server is dropped, share_placement gets an incomplete existing-share relation (a read-only server "
+                        "cannot be matched with that share, the spread is lower) (path: %s)" % (
+                            K, V, V, REL, K, hint, w.brief()), w)
+        for (n, w, fresh) in pr.clobbers:
+            r.violation(ap_, ap_.loc(n.ast), "%s replaces the set of shares recorded for %s although %s may already have an "
+                        "entry: the shares reported earlier for this server are dropped" % (src(ap_, n.ast), K, K), w)
+        for (n, what) in pr.foreign.values():
+            r.violation(ap_, ap_.loc(n.ast), "add_peer_with_share(%s, %s): %s - not the pair it was given" % (K, V, what))
+        # (c) add_peer / (d) mark_bad_peer
+        plain = Normaliser(Env(None, depth=0))
+
+        def changes(fn, S, p, adding):
+            """CFG nodes of fn that put p into / take p out of the set attribute S."""
+            fl_ = Flow(fn)
+            meths = ("add",) if adding else ("remove", "discard")
+            bulk = ("update",) if adding else ("difference_update",)
+            out = []
+            for n in fn.cfg().stmt_nodes():
+                hit = False
+                for c in node_calls(n):
+                    if isinstance(c.func, ast.Attribute) and attr_path(c.func.value) == S and len(c.args) == 1 and not c.keywords:
+                        a0 = c.args[0]
+                        if c.func.attr in meths and fl_.origin(n, a0) == p:
+                            hit = True
+                        if c.func.attr in bulk and isinstance(a0, (ast.List, ast.Tuple, ast.Set)) \
+                                and any(fl_.origin(n, x) == p for x in a0.elts):
+                            hit = True
+                a = n.ast
+                if n.kind == "stmt" and isinstance(a, ast.AugAssign) and attr_path(a.target) == S \
+                        and isinstance(a.op, ast.BitOr if adding else ast.Sub):
+                    els = set_elements(a.value)
+                    if els is not None and any(fl_.origin(n, x) == p for x in els):
+                        hit = True
+                if hit:
+                    out.append(n)
+            return out
+        ad = idx.func(UP + ":PeerSelector.add_peer")
+        p_ = first_positional_params(ad)[0]
+        r.site(ad, None, "add_peer")
+        adds_ = changes(ad, PEERS, p_, True)
+        acfg_ = ad.cfg()
+        for (t, w) in find_path_avoiding(acfg_, lambda x: x is acfg_.exit, gate_node=lambda x: any(x is y for y in adds_)):
+            r.violation(ad, ad.loc(), "add_peer(%s) can end without %s in %s: the placement never uses that server" % (p_, p_, PEERS), w)
+        mb = idx.func(UP + ":PeerSelector.mark_bad_peer")
+        p_ = first_positional_params(mb)[0]
+        mcfg_ = mb.cfg()
+        r.site(mb, None, "mark_bad_peer")
+        for (S, other) in ((PEERS, RO), (RO, PEERS)):
+            rem_ = changes(mb, S, p_, False)
+
+            def out_of(n, lab, _S=S, _o=other, _p=p_):
+                f = fact_on_edge(plain, n, lab)
+                # PeerSelector keeps the two sets disjoint (rule 3): a member of the other set is not in this one
+                return bool(f) and ((f[0], f[1], f[2]) == ("not in", _p, _S) or (f[0], f[1], f[2]) == ("in", _p, _o))
+            for (t, w) in find_path_avoiding(mcfg_, lambda x: x is mcfg_.exit, gate_node=lambda x, _r=rem_: any(x is y for y in _r),
+                                             gate_edge=out_of):
+                r.violation(mb, mb.loc(), "mark_bad_peer(%s) can end with %s still in %s: the next placement gives shares to a "
+                            "server that failed" % (p_, p_, S), w)
 
 
 def reach_from_within(cfg, a, b, head) -> bool:
